@@ -28,19 +28,32 @@ partial def docJson : MDoc → Json
   | .nothing => Json.mkObj [("f", Json.str "_id"), ("o", Json.mkObj [("$exists", Json.bool false)])]
   | .crash => Json.str "panic"
 
+/-- `"marks": [[name, elem], …]` (optional): the marks the traveler carries. -/
+def marksOf (j : Json) : Option (List (String × Elem)) :=
+  match arr? j "marks" with
+  | none => some []
+  | some xs => xs.mapM fun p => match p with
+    | Json.arr #[Json.str n, e] => (Drv.C08.elemOf e).map fun d => (n, d)
+    | _ => none
+
 def stepHas (j : Json) : Json :=
-  match (val? j "elem").bind Drv.C08.elemOf, (val? j "expr").bind Drv.C08.exprOf with
-  | some d, some e =>
+  match (val? j "elem").bind Drv.C08.elemOf, (val? j "expr").bind Drv.C08.exprOf, marksOf j with
+  | some cur, some e, some marks =>
+    let t : Trav := { cur := cur, marks := marks }
     let neg := (bool? j "neg").getD false
-    let inexact := (Drv.C08.strsOfJV d.data ++ Drv.C08.strsOfExpr e).any (fun s => Drv.parseNumText s == .inexact)
+    let inexact := ((cur :: marks.map (·.2)).flatMap (fun d => Drv.C08.strsOfJV d.data) ++ Drv.C08.strsOfExpr e).any
+      (fun s => Drv.parseNumText s == .inexact)
     if inexact then Json.mkObj [("skip", Json.bool true)] else
     let doc := convert e neg
     let dj := if hasCrash doc then Json.str "panic" else docJson doc
-    let core := (eval Drv.numOf d e) != neg
+    -- the core engine's verdict: has keys resolved by TravelerPathLookup (namespace → mark)
+    let core := (evalBy Drv.numOf (coreRes t) e) != neg
     let obs := [("doc", dj), ("core", Json.bool core)]
-    let ws := whys Drv.numOf d e
-    let inScope := !(ws.contains "nonscalar") && !(ws.contains "malformed")
-    if inScope && mEval d doc != some core then
+    let ws := whys Drv.numOf (coreRes t) e
+    -- scope of the property: scalar field values, marks defined before use, keys that address a field
+    let inScope := !(ws.contains "nonscalar") && !(ws.contains "malformed") && marksDefined t e && keysAddressFields e
+    -- MongoDB's verdict: the emitted field names resolved on the pipeline document
+    if inScope && mEval (mongoRes t) doc != some core then
       let kf := match ws.find? (fun w => w.startsWith "C14-") with
         | some w => w
         | none => "C14-unclassified"
@@ -48,7 +61,7 @@ def stepHas (j : Json) : Json :=
                                               ("core", Json.bool core)]),
                           ("kf", Json.str kf)])
     else Json.mkObj obs
-  | _, _ => Drv.bad "has: cannot decode"
+  | _, _, _ => Drv.bad "has: cannot decode"
 
 /-! typing -/
 open Grip.C14T in
